@@ -91,6 +91,11 @@ def eval_body(b, c1, c2, ordp):
     return None, False
 
 
+def VRlit_false(b):
+    from sa.kinds import visit_run as VR
+    return VR.lit_false(b)
+
+
 def run(chk):
     fx = F.Facts()
     chk.rule('C03-R1', 'every atom x atom row of Context::is_super_pred_of (Equal / NotEqual / GreaterEqual / LessEqual on both sides) is sound over the integers: for each '
@@ -215,6 +220,44 @@ def run(chk):
             chk.bad('C03-R2', 'Context::is_super_pred_of', inst,
                     'the %s arm iterates the %s side and searches the %s side (is_super_pred_of(super, sub) argument order ok: %s); for %s the outer quantifier must range over the %s side'
                     % (inst, outer, inner, order_ok, 'conjunctions' if kind == 'And' else 'disjunctions', want_outer), FILE, arm['l'])
+    # ---- the occurrence test that decides whether a refinement constrains its variable at all
+    chk.rule('C03-mentions', 'Predicate::mentions (supertype_of treats a predicate that does not mention the refinement variable as no constraint) inspects every variant that carries '
+                             'type parameters or sub-predicates: none of them falls into the neutral `_ => false` arm, and an arm for such a variant uses its subject or one of those fields')
+    PRED = 'crates/erg_compiler/ty/predicate.rs'
+    padt = [a for a in fx.adts('erg_compiler')['adts'] if a['path'].endswith('predicate::Predicate')]
+    mf = fx.fn(PRED, 'Predicate::mentions')
+    if chk.need(len(padt) == 1 and mf is not None, 'Predicate / Predicate::mentions not found'):
+        kids = {v['n']: [f_['n'] for f_ in v['f'] if 'TyParam' in f_['t'] or 'Predicate' in f_['t']] for v in padt[0]['variants']}
+        chk.floor('Predicate variants with sub-terms', len([k for k, v in kids.items() if v]), 12)
+        mm = [n for n in T.stmts_of(mf['body']) if T.unsemi(n).get('k') == 'Match']
+        if chk.need(len(mm) == 1, 'Predicate::mentions: expected one match'):
+            handled = {}
+            default = None
+            for arm in T.unsemi(mm[0])['arms']:
+                if arm['pat'].get('k') in ('Wild', 'Bind'):
+                    default = arm
+                for alt in (arm['pat']['p'] if arm['pat'].get('k') == 'POr' else [arm['pat']]):
+                    for v in T.pat_variants(alt):
+                        handled.setdefault(v.split('::')[-1], (arm, alt))
+            for v, fields in sorted(kids.items()):
+                if not fields:
+                    continue
+                if v not in handled:
+                    if default is not None and VRlit_false(default['b']):
+                        chk.bad('C03-mentions', 'Predicate::mentions', 'neutral-default:%s' % v, 'Predicate::%s carries %s but falls into the `_ => false` arm of mentions: a refinement '
+                                'built from it is taken as unconstrained, so every value of the base type is accepted where it is required' % (v, ', '.join(fields)), PRED, default['l'])
+                    elif default is None:
+                        chk.bad('C03-mentions', 'Predicate::mentions', 'no-arm:%s' % v, 'no arm for Predicate::%s' % v, PRED, mf['line'])
+                    else:
+                        chk.ok('C03-mentions', (v, 'non-neutral default'))
+                    continue
+                arm, alt = handled[v]
+                bound = {b if isinstance(b, str) else b.get('n') for b in T.pat_bindings(alt)}
+                used = {x['n'] for x in T.walk(arm['b']) if x.get('k') == 'Local'}
+                if bound & used:
+                    chk.ok('C03-mentions', v, sample='mentions/%s inspects %s' % (v, ', '.join(sorted(bound & used))))
+                else:
+                    chk.bad('C03-mentions', 'Predicate::mentions', 'ignored:%s' % v, 'the arm of mentions for Predicate::%s binds nothing it uses' % v, PRED, arm['l'])
     from sa.props.c32 import combinator_rule
     combinator_rule(chk, fx, rid='C03-comb')      # a refinement written `P and Q` must keep both conjuncts: the subtype test is only as sound as the predicate it is given
     return ('Row-by-row soundness of the comparison-atom arms of Context::is_super_pred_of under the three-orderings model (bodies recognised from typed HIR; the truth table of '
